@@ -5,6 +5,7 @@ import LassoModel.Wrap
 import LassoModel.Markers
 import LassoModel.Borrow
 import LassoModel.Conc
+import LassoModel.ConcArena
 import LassoModel.Extracted
 /-
   Line-protocol driver: one operation per input line, one answer per output line.
@@ -746,11 +747,95 @@ def concStep (st : DState) (toks : List String) : Option (DState × String) :=
   | ["cfree", _] => some (st, "free")   -- schedules not generated by the model: oracle-only on the implementation
   | _ => none
 
+/-! ### concurrent arena scenarios (C05, C09) -/
+
+def arenaInit (sc : CScenario) : CA.AS :=
+  let progs := sc.programs.map fun p => p.filterMap fun c => match c with
+    | .intern x => some x
+    | _ => none
+  -- the pre-fill strings are stored sequentially by an extra last thread that then stays idle
+  let s0 := CA.init sc.cap sc.max (progs ++ [sc.prefill])
+  let pre := progs.length
+  let rec go (fuel : Nat) (s : CA.AS) : CA.AS :=
+    match fuel with
+    | 0 => s
+    | f + 1 => match CA.step s pre false with
+      | some s' => go f s'
+      | none => s
+  go (sc.prefill.length * 40 + 1) s0
+
+def showArena (s : CA.AS) : String :=
+  let n := s.ts.length - 1
+  let perThread := (List.range n).map fun t =>
+    let rs := (s.log.reverse.filter (fun e => e.1 == t)).map fun e => match e.2.2 with
+      | .ok _ _ => "ok"
+      | .empty => "ok"
+      | .err => "errmem"
+    s!"T{t}:" ++ joinWith "," rs
+  let blocks := s.buckets.map fun b => s!"{b.cap}:{b.len}"
+  let locs := sortStrs (s.log.filterMap fun e => match e.2.2 with
+    | .ok bid off => (s.buckets.findIdx? (fun b => b.id == bid)).map fun p => s!"{hex e.2.1}@{p}:{off}"
+    | _ => none)
+  joinWith ";" perThread ++ s!"|blocks:{joinWith "," blocks}|locs:{joinWith "," locs}|usage={s.usage}|done={CA.quiescent s}"
+
+def genArenaSchedule (sc : CScenario) (seed : UInt64) : List Nat :=
+  let rec go (fuel : Nat) (s : CA.AS) (z : UInt64) (acc : List Nat) : List Nat :=
+    match fuel with
+    | 0 => acc.reverse
+    | f + 1 =>
+      let en := (CA.enabled s).filter (· + 1 != s.ts.length)
+      if en.isEmpty then acc.reverse else
+      let (z', r) := splitmix z
+      -- bursts: stay with the same thread with probability 1/2 to reach deep interleavings
+      let t := en.getD (r.toNat % en.length) 0
+      match CA.step s t false with
+      | some s' => go f s' z' (t :: acc)
+      | none => acc.reverse
+  go 6000 (arenaInit sc) seed []
+
+def allArenaSchedules (sc : CScenario) (limit : Nat) : List (List Nat) :=
+  let rec go (fuel : Nat) (s : CA.AS) (pre : List Nat) (acc : List (List Nat)) : List (List Nat) :=
+    match fuel with
+    | 0 => acc
+    | f + 1 =>
+      if acc.length ≥ limit then acc else
+      let en := (CA.enabled s).filter (· + 1 != s.ts.length)
+      if en.isEmpty then pre.reverse :: acc else
+      en.foldl (fun acc t =>
+        match CA.step s t false with
+        | some s' => go f s' (t :: pre) acc
+        | none => acc) acc
+  (go 200 (arenaInit sc) [] []).reverse
+
+def showSched0 (l : List Nat) : String := joinWith "," (l.map toString)
+
+def arenaStep (st : DState) (toks : List String) : Option (DState × String) :=
+  match toks with
+  | ["agen", seed, count] =>
+    match seed.toNat?, count.toNat? with
+    | some sd, some c =>
+      let lines := (List.range c).map fun i => "arun " ++ showSched0 (genArenaSchedule st.conc (UInt64.ofNat (sd * 1000003 + i)))
+      some (st, joinWith "\n" lines)
+    | _, _ => none
+  | ["aexhaust", limit] =>
+    match limit.toNat? with
+    | some l => some (st, joinWith "\n" ((allArenaSchedules st.conc l).map fun s => "arun " ++ showSched0 s))
+    | none => none
+  | ["arun", sched] =>
+    let ts := if sched == "_" then [] else (sched.splitOn ",").filterMap (fun x => x.toNat?)
+    let s := CA.run (arenaInit st.conc) (ts.map fun t => (t, false))
+    some (st, showArena s)
+  | ["afree", _] => some (st, "free")
+  | _ => none
+
 def findSpec (name : String) : Option KeySpec :=
   Extracted.keySpecs.find? (fun s => s.name == name)
 
 def step (st : DState) (line : String) : DState × String :=
   match concStep st (line.trimAscii.toString.splitOn " ") with
+  | some r => r
+  | none =>
+  match arenaStep st (line.trimAscii.toString.splitOn " ") with
   | some r => r
   | none =>
   match line.trimAscii.toString.splitOn " " with
